@@ -142,7 +142,10 @@ func newC16Backend(kind, scratch string, ids []quickfix.SessionID) (*c16Backend,
 			return nil, err
 		}
 		st.GlobalSettings().Set(config.SQLStoreDriver, "sqlite3")
-		st.GlobalSettings().Set(config.SQLStoreDataSourceName, p)
+		// no waiting on a locked database: the operations of a program follow each other on one goroutine, so a lock
+		// met by a write can only be one that an earlier operation of the same program left behind (with the driver's
+		// default of 5 s the garbage collector usually finalises a leaked statement first and hides it)
+		st.GlobalSettings().Set(config.SQLStoreDataSourceName, "file:"+p+"?_busy_timeout=20")
 	}
 	for _, id := range ids {
 		ss := quickfix.NewSessionSettings()
